@@ -389,7 +389,8 @@ fn main() {
         let name = format!("c03op{k}");
         let g = op_grammar(&name, &t);
         let json = serde_json::to_string(&g).unwrap();
-        explore_token_grammar(&mut em, &mut cu, &mut rng, &name, "op", &format!("op:{name}:{}", t.encode()), &json, Some(&t), budget, nrandom, &mut stats);
+        // (the chains of two and three operators are always explored: a smaller exhaustive bound suffices)
+        explore_token_grammar(&mut em, &mut cu, &mut rng, &name, "op", &format!("op:{name}:{}", t.encode()), &json, Some(&t), budget.min(30000), nrandom, &mut stats);
     }
     // LR(1)-but-not-LALR(1) grammars with 2..4-way splits of one item-set core
     for k in 0..(if thorough { 60 } else { 8 }) {
